@@ -97,6 +97,12 @@ type c09Plan struct {
 	close   bool // Connection: close
 	abort   bool // drop the connection without answering
 	altsvc  bool // send Alt-Svc
+	// what the origin does with a request that carries "Expect: 100-continue":
+	// 0 = nothing special (read the body), 1 = send "100 Continue" then read the body,
+	// 2 = answer with the final status WITHOUT "100 Continue" and read the promised body afterwards
+	expect int
+	status int  // final status (0 = 200)
+	silent bool // close the connection right after the complete response, without announcing it
 }
 
 func (p c09Plan) String() string {
@@ -106,17 +112,25 @@ func (p c09Plan) String() string {
 		}
 		return 0
 	}
-	return fmt.Sprintf("%d,%d,%d,%d,%d,%d,%d", p.delay, p.size, b(p.chunked), p.pause, b(p.close), b(p.abort), b(p.altsvc))
+	return fmt.Sprintf("%d,%d,%d,%d,%d,%d,%d,%d,%d,%d", p.delay, p.size, b(p.chunked), p.pause, b(p.close), b(p.abort), b(p.altsvc),
+		p.expect, p.status, b(p.silent))
 }
 
 func c09ParsePlan(s string) c09Plan {
-	var v [7]int
+	var v [10]int
 	for i, f := range strings.Split(s, ",") {
-		if i < 7 {
+		if i < len(v) {
 			v[i], _ = strconv.Atoi(f)
 		}
 	}
-	return c09Plan{v[0], v[1], v[2] == 1, v[3], v[4] == 1, v[5] == 1, v[6] == 1}
+	return c09Plan{v[0], v[1], v[2] == 1, v[3], v[4] == 1, v[5] == 1, v[6] == 1, v[7], v[8], v[9] == 1}
+}
+
+func (p c09Plan) wantStatus() int {
+	if p.status == 0 {
+		return 200
+	}
+	return p.status
 }
 
 // ---------------------------------------------------------------------------------------
@@ -135,6 +149,29 @@ type c09H1Origin struct {
 	maxLive   atomic.Int32
 	cmu       sync.Mutex
 	open      map[net.Conn]bool
+	foreignMu sync.Mutex
+	foreignEv []string // bytes of one exchange seen inside another
+}
+
+func (o *c09H1Origin) foreign(msg string) {
+	o.foreignMu.Lock()
+	if len(o.foreignEv) < 4 {
+		o.foreignEv = append(o.foreignEv, msg)
+	}
+	o.foreignMu.Unlock()
+}
+
+func (o *c09H1Origin) foreignSeen() []string {
+	o.foreignMu.Lock()
+	defer o.foreignMu.Unlock()
+	return append([]string(nil), o.foreignEv...)
+}
+
+func c09Clip(b []byte) string {
+	if len(b) > 40 {
+		b = b[:40]
+	}
+	return string(b)
 }
 
 type c09Parsed struct {
@@ -226,10 +263,18 @@ func (o *c09H1Origin) handle(c net.Conn) {
 				st.Unlock()
 				return
 			}
-			body, _ := io.ReadAll(r.Body)
 			tag, _ := strconv.Atoi(r.Header.Get("X-Tag"))
 			p := c09Parsed{tag: tag, plan: c09ParsePlan(r.Header.Get("X-Plan")), method: r.Method}
-			p.bodyOK = bytes.Equal(body, c09Pattern(tag, len(body), "q"))
+			expects := strings.EqualFold(r.Header.Get("Expect"), "100-continue")
+			lateBody := expects && p.plan.expect == 2
+			var body []byte
+			if !lateBody {
+				if expects && p.plan.expect == 1 {
+					c.Write([]byte("HTTP/1.1 100 Continue\r\n\r\n"))
+				}
+				body, _ = io.ReadAll(r.Body)
+				p.bodyOK = bytes.Equal(body, c09Pattern(tag, len(body), "q"))
+			}
 			st.Lock()
 			if st.closed {
 				st.Unlock()
@@ -237,9 +282,26 @@ func (o *c09H1Origin) handle(c net.Conn) {
 			}
 			st.busy++
 			st.gen++
+			if lateBody {
+				st.busy++ // the connection is not idle until the promised body has arrived
+			}
 			o.rec.add(3, id, tag)
 			st.Unlock()
 			reqs <- p
+			if lateBody {
+				// the final status goes out first (responder); the body the client promised with
+				// Content-Length is read afterwards, before the next request can be parsed
+				body, _ = io.ReadAll(r.Body)
+				// a SHORT body is legitimate (the client may give up the connection instead of
+				// finishing the upload once it has the final status); bytes of another exchange are not
+				if !bytes.HasPrefix(c09Pattern(tag, int(r.ContentLength), "q"), body) {
+					o.foreign(fmt.Sprintf("origin %d: the body promised by request tag %d (Expect: 100-continue, %d bytes) arrived as %q…", o.host, tag, r.ContentLength, c09Clip(body)))
+				}
+				st.Lock()
+				st.busy--
+				st.gen++
+				st.Unlock()
+			}
 		}
 	}()
 	for p := range reqs {
@@ -254,7 +316,7 @@ func (o *c09H1Origin) handle(c net.Conn) {
 			break
 		}
 		var hdr bytes.Buffer
-		fmt.Fprintf(&hdr, "HTTP/1.1 200 OK\r\nX-Tag: %d\r\nContent-Type: application/octet-stream\r\n", p.tag)
+		fmt.Fprintf(&hdr, "HTTP/1.1 %d %s\r\nX-Tag: %d\r\nContent-Type: application/octet-stream\r\n", pl.wantStatus(), http.StatusText(pl.wantStatus()), p.tag)
 		if p.bodyOK {
 			hdr.WriteString("X-Body-Ok: 1\r\n")
 		}
@@ -304,7 +366,10 @@ func (o *c09H1Origin) handle(c net.Conn) {
 		gen := st.gen
 		st.Unlock()
 		c.Write(last)
-		if pl.close {
+		if pl.close || pl.silent {
+			if pl.silent {
+				o.rec.count("origin-closed-silently-after-response")
+			}
 			st.Lock()
 			closeConn()
 			st.Unlock()
@@ -440,6 +505,7 @@ type c09Req struct {
 	plan       c09Plan
 	earlyClose bool // read only a prefix of the body, then Close
 	slowRead   bool // read the body by hand, in two parts with a pause
+	expect     bool // POST with "Expect: 100-continue" (plan.expect says what the origin does)
 }
 
 type c09Round struct {
@@ -454,6 +520,7 @@ type c09Round struct {
 	dump             bool
 	callers          [][]c09Req
 	concurrentAltSvc bool // Alt-Svc headers under full concurrency (only when the facts say guarded)
+	hasSilent        bool // some response is followed by an unannounced close of the connection
 }
 
 type c09Outcome struct {
@@ -614,6 +681,9 @@ func c09RunRound(t *testing.T, rd *c09Round, guardedAltSvc bool) (out c09Outcome
 		var err error
 		if q.post {
 			r.SetBodyBytes(c09Pattern(q.tag, q.reqSize, "q"))
+			if q.expect {
+				r.SetHeader("Expect", "100-continue")
+			}
 			resp, err = r.Post(urls[q.target])
 		} else {
 			resp, err = r.Get(urls[q.target])
@@ -625,7 +695,8 @@ func c09RunRound(t *testing.T, rd *c09Round, guardedAltSvc bool) (out c09Outcome
 			// a non-idempotent request racing with an origin that closes idle connections, or
 			// CloseIdleConnections hitting an HTTP/2 connection between its selection and its
 			// use (the documented window in client_conn_pool.go CloseIdleConnections).
-			expected := q.plan.abort || (rd.idleClose && q.post) || (rd.closer && q.target == 2)
+			// (a non-idempotent request may also hit a connection the origin closed silently)
+			expected := q.plan.abort || ((rd.idleClose || rd.hasSilent) && q.post) || (rd.closer && q.target == 2)
 			if !expected {
 				if rd.disableKA && c09IsH2Unusable(err) {
 					// finding C09-3 (classed by lane h2singleuse, which forces the schedule)
@@ -664,8 +735,9 @@ func c09RunRound(t *testing.T, rd *c09Round, guardedAltSvc bool) (out c09Outcome
 		if e != nil {
 			echo = 0
 		}
-		ok := bytes.Equal(body, want) && resp.StatusCode == 200
-		if q.post && resp.Header.Get("X-Body-Ok") != "1" {
+		ok := bytes.Equal(body, want) && resp.StatusCode == q.plan.wantStatus()
+		// (with plan.expect == 2 the origin answers before it has the body: it checks the body itself)
+		if q.post && q.plan.expect != 2 && resp.Header.Get("X-Body-Ok") != "1" {
 			ok = false
 		}
 		okN := 0
@@ -770,6 +842,11 @@ func c09RunRound(t *testing.T, rd *c09Round, guardedAltSvc bool) (out c09Outcome
 	}
 	close(stop)
 	bg.Wait()
+	for _, o := range []*c09H1Origin{oa, ob, oc} {
+		for _, m := range o.foreignSeen() {
+			unexpected("%s", m)
+		}
+	}
 	c09Sample(tr, rec, hostOfAddr)
 	tr.CloseIdleConnections()
 	if tr.t3 != nil {
@@ -808,11 +885,14 @@ func c09RunRound(t *testing.T, rd *c09Round, guardedAltSvc bool) (out c09Outcome
 			} else if q.slowRead {
 				x = "s"
 			}
+			if q.expect {
+				m += "x"
+			}
 			specs = append(specs, fmt.Sprintf("t%d:%d:%s:%s:%s", q.tag, q.target, m, q.plan.String(), x))
 		}
 	}
 	defer func() {
-		out.human += " reqs[tag:target:method:delay,size,chunked,pause,close,abort,altsvc:early|slow] " + strings.Join(specs, " ")
+		out.human += " reqs[tag:target:method(x=Expect):delay,size,chunked,pause,close,abort,altsvc,expect,status,silent:early|slow] " + strings.Join(specs, " ")
 	}()
 	out.human = fmt.Sprintf("%s round: %d callers / %d requests, MaxConnsPerHost=%d MaxIdleConnsPerHost=%d MaxIdleConns=%d DisableKeepAlives=%v idleClose=%v closer=%v cloner=%v dump=%v -> %d events, stats %v",
 		rd.kind, len(rd.callers), n, rd.maxConns, rd.maxIdleHost, rd.maxIdle, rd.disableKA, rd.idleClose, rd.closer, rd.cloner, rd.dump, len(evs), out.stat)
@@ -874,6 +954,19 @@ func c09GenRound(r *rand.Rand, kind string, tag *int, guardedAltSvc bool) *c09Ro
 					}
 				}
 			}
+			if !mux && q.post && !q.plan.close && !q.plan.abort && !q.earlyClose && !q.slowRead && r.Intn(3) == 0 {
+				// Expect: 100-continue; the origin either sends "100 Continue" or answers with a
+				// final status straight away and keeps the connection (the body must follow)
+				q.expect = true
+				q.plan.expect = 1 + r.Intn(2)
+				if q.plan.expect == 2 {
+					q.plan.status = verifh.Pick(r, []int{403, 404, 500, 200})
+				}
+			}
+			if !mux && !q.plan.close && !q.plan.abort && q.plan.expect != 2 && !q.earlyClose && r.Intn(12) == 0 {
+				q.plan.silent = true
+				rd.hasSilent = true
+			}
 			if rd.concurrentAltSvc && q.target == 2 {
 				q.plan.altsvc = r.Intn(2) == 0
 			}
@@ -888,7 +981,7 @@ func c09GenRound(r *rand.Rand, kind string, tag *int, guardedAltSvc bool) *c09Ro
 // recorded history goes to the Lean monitor.
 func TestVerif_C09_stress(t *testing.T) {
 	s := verifh.New(t, "C09", "stress",
-		"rounds of 3..10 concurrent callers x 2..6 requests on one client (GET/POST, bodies 0..70000 B derived from a unique tag, Content-Length/chunked, split writes with pauses, Connection: close, dropped connections, early body close, slow manual reads) against two raw HTTP/1.1 origins that parse requests as soon as bytes arrive, an HTTP/2 origin and (some rounds) an HTTP/3 origin / Alt-Svc upgrade; MaxConnsPerHost 0..3, MaxIdleConnsPerHost -1..4, MaxIdleConns 0..100, DisableKeepAlives, origins closing idle connections, CloseIdleConnections and Client.Clone running concurrently, dump on/off; pool state sampled under the transport's locks; the totally ordered history is judged by the Lean monitor (Req/Pool/Monitor.lean); non-trivial = round with >= 2 callers that reused a connection or multiplexed")
+		"rounds of 3..10 concurrent callers x 2..6 requests on one client (GET/POST, bodies 0..70000 B derived from a unique tag, Content-Length/chunked, split writes with pauses, Connection: close, dropped connections, connections closed silently right after a response, Expect: 100-continue answered by 100 or by a final 2xx/4xx/5xx without 100, early body close, slow manual reads) against two raw HTTP/1.1 origins that parse requests as soon as bytes arrive, an HTTP/2 origin and (some rounds) an HTTP/3 origin / Alt-Svc upgrade; MaxConnsPerHost 0..3, MaxIdleConnsPerHost -1..4, MaxIdleConns 0..100, DisableKeepAlives, origins closing idle connections, CloseIdleConnections and Client.Clone running concurrently, dump on/off; pool state sampled under the transport's locks; the totally ordered history is judged by the Lean monitor (Req/Pool/Monitor.lean); non-trivial = round with >= 2 callers that reused a connection or multiplexed")
 	r := s.Rand()
 	guarded := c09AltSvcGuarded(t)
 	if guarded {
